@@ -1981,8 +1981,19 @@ class StateEngine(object):
                 execution_arn otherwise end the execution.
                 """
                 if task_terminated:
+                    """
+                    A Map or Parallel state reports Task.Terminated when a
+                    straggling Branch of it is dropped after it has failed:
+                    the failure has been dealt with already. A Task or Wait
+                    state that is not in any Branch has no peer that could
+                    have terminated it, so it was cancelled from outside (by
+                    the execution that launched this one synchronously) and
+                    this execution has to end, also if results of a Map or
+                    Parallel state it completed earlier are still around.
+                    """
                     metadata = self.branch_metadata.get(execution_arn)
-                    if metadata and not getattr(metadata, "cancelled", False):
+                    if (metadata and not getattr(metadata, "cancelled", False)
+                        and (state_type == "Map" or state_type == "Parallel")):
                         self.check_pending_results(execution_arn)
                     else:
                         # Cancelled from outside (see asl_state_collect_results)
